@@ -5,6 +5,7 @@ import os
 import shutil
 import sys
 import tempfile
+import zlib
 
 import core
 import cidlib
@@ -45,6 +46,26 @@ def cell_kind(row, col):
     return "%s.%s" % (k, names[col] if col < len(names) else "extra")
 
 
+def cid_signature(fmt, rows, i, j, itag):
+    """signature of an escaping exception: the single cell that causes it (also inside a pair of hostile cells)"""
+    base = BASE_CIDS[fmt]
+
+    def single(i, j):
+        kind = cell_kind(base[i], j)
+        ty = rows[i][5] if (kind.startswith("f.") and len(rows[i]) > 5) else ""
+        return "C10:cid:%s:%s%s" % (kind, itag, (":" + ty) if kind in ("f.rule", "f.example", "f.length") else "")
+    if i >= 0:
+        return single(i, j)
+    changed = [(a, b) for a in range(len(base)) for b in range(len(base[a])) if rows[a][b] != base[a][b]]
+    for a, b in changed:
+        alone = [list(r) for r in base]
+        alone[a][b] = rows[a][b]
+        if cidlib.impl_canonical(alone).split("@")[0].split(" ")[0] == itag:
+            i, j = a, b
+            return single(a, b)
+    return "C10:cid:pair:%s" % itag
+
+
 def run(ctx):
     rnd = ctx.rnd
     ctx.rule = ("exhaustive one-cell-at-a-time: every cell of every row of four base CIDs (all formats, all 8 field types, both checks, all properties) replaced in "
@@ -81,9 +102,7 @@ def run(ctx):
         ctx.count(key=("cid", fmt, i, j, h, repr(rows) if i < 0 else ""), branch="cid:%s:%s" % (kind, itag))
         ctx.sample(case)
         if itag not in ("ok", "iface") and not itag.startswith("data:"):
-            ty = rows[i][5] if (i >= 0 and kind.startswith("f.") and len(rows[i]) > 5) else ""
-            ctx.violation("C10:cid:%s:%s%s" % (kind, itag, (":" + ty) if kind in ("f.rule", "f.example", "f.length") else ""),
-                          "CID cell %s = %r makes Cid.read raise %s" % (kind, h, impl), case)
+            ctx.violation(cid_signature(fmt, rows, i, j, itag), "CID cell %s = %r makes Cid.read raise %s" % (kind, h, impl), case)
         mtag = mo.split("@")[0].split(" ")[0]
         if mtag == "unsupported":
             ctx.skip(case)
@@ -148,7 +167,7 @@ def run(ctx):
             f.write("h\n" + good)
         n_cli = 0
         for (fmt, i, j, h, rows) in cases:
-            if fmt != "delimited" or i < 0 or "\x00" in h or (n_cli >= 400 and ctx.tier == "quick" and hash((i, j, h)) % 7):
+            if fmt != "delimited" or i < 0 or "\x00" in h or (n_cli >= 400 and ctx.tier == "quick" and zlib.crc32(repr((i, j, h)).encode("utf-8", "replace")) % 7):
                 continue
             n_cli += 1
             cid_path = os.path.join(tmp, "cid.csv")
@@ -161,7 +180,9 @@ def run(ctx):
             ctx.count(key=("cli", i, j, h), branch="cli:exit%s" % code)
             if code == 4:
                 kind = cell_kind(BASE_CIDS[fmt][i], j)
-                ctx.violation("C10:cli-exit-4:%s" % kind, "command line exits 4 for CID cell %s = %r" % (kind, h), {"row": i, "col": j, "value": h})
+                # the same defect as the escaping exception of Cid.read for this cell: one signature for both
+                under = cidlib.impl_canonical(rows).split("@")[0].split(" ")[0]
+                ctx.violation(cid_signature(fmt, rows, i, j, under), "command line exits 4 for CID cell %s = %r (%s)" % (kind, h, under), {"row": i, "col": j, "value": h})
     finally:
         sys.stderr.close()
         sys.stderr = old_err
